@@ -145,8 +145,9 @@ def forwarding(ctx, rows):
 # ------------------------------------------------------------------------------------------ (A)
 def registry(ctx):
     thorough = ctx.tier == "thorough"
-    ctx.mc("Router", "RouterMC.cfg", consts={"NGetters": 3 if thorough else 2, "MaxMut": 2 if thorough else 1, "Recheck": "TRUE"},
-           workers=vf.NCPU, timeout=3000)
+    # (3 getters with a 2-operation mutator is 1.9e7 states / 10 min: the thorough tier splits it)
+    for ng, mm in ([(3, 1), (2, 2)] if thorough else [(2, 1)]):
+        ctx.mc("Router", "RouterMC.cfg", consts={"NGetters": ng, "MaxMut": mm, "Recheck": "TRUE"}, workers=vf.NCPU, timeout=3000)
     # the model has teeth: without the second look under the lock TLC must find two committed clients
     neg = ctx.tlc("Router", "RouterNeg.cfg", consts={"NGetters": 2, "MaxMut": 0}, workers=4, timeout=600)
     if "SingleCommit" not in neg.violated:
